@@ -61,207 +61,306 @@ def nxt_uids(s):
 
 
 
-def enumerate_sources(rep, key, fn, paths):
-    """every enumerate() that supplies a ring / member index is applied to the complete sequence (its index is the position the error names):
-    an adaptor that drops items in front of it (filter, skip_while, ...) shifts the indices"""
-    from ..memberfold import subterms
-    from ..symex import bare
-    bad = None
-    n = 0
-    seen = set()
-    for p in paths[:4000]:
-        for t, _ in p.pc:
-            for s in subterms(t, []):
-                if s and s[0] == "call" and s[1].rsplit("::", 1)[-1] == "enumerate" and s not in seen:
-                    seen.add(s)
-                    n += 1
-                    arg = bare(s[2][0]) if s[2] else ""
-                    if re.match(r"^(filter|filter_map|skip_while|take_while|step_by|flat_map|flatten|rev|skip)\(", arg):
-                        bad = arg
-    if bad:
-        rep.bad("R14.2", key + ":index-source:enumerate", "an index comes from enumerate() applied to %s: items are dropped before they are numbered, so the index is not the ring's / member's "
-                "position and a later skip(index + 1) pairs a ring with itself or names the wrong ring" % bad[:120], where=fn.loc())
-    elif n:
-        rep.ok("R14.2", key + ":enumerate-over-all[%d]" % n)
+GT = "geo_types::geometry::"
+# calls that stay uninterpreted in the validation tables (everything else in geo / geo_types, e.g. extracted helpers, is inlined)
+API = [r"Relate.*::relate$", r"IntersectionMatrix::\w+$", r"HasDimensions>::is_empty$", r"validation::utils::\w+$", r"Validation>::visit_validation$", r"Validation for .*>::visit_validation$",
+       r"Polygon::<T>::new$", r"::clone$", r"BoundingRect.*::bounding_rect$", r"Intersects.*::intersects$", r"Dimensions as core::cmp::PartialEq>::(eq|ne)$"]
+CELL = {"Inside": "I", "OnBoundary": "B", "Outside": "E"}
 
 
-def polygon_table(rep, F):
-    rep.rule("R14.2", "each InvalidPolygon value is built under the true edge of its own check on the ring(s) it names; indices and rings come from the same enumerate() item")
-    rep.rule("R14.3", "ring tests use the stated constants: hole not is_contains in the shell-polygon; (B,I)=1 shell/hole and (B,B)=1 hole/hole are line contacts; (I,I)=2 is an area overlap")
-    rep.rule("R14.4", "every pair formed by the loops is tested (no pre-filter before relate)")
-    try:
-        fn = F.impl_method(VAL, r"polygon::Polygon<F>$", None, "visit_validation", crates=("geo",))
-        paths = opaque(F, loop_bound=1, max_paths=300000, budget_s=120).run(fn)
-    except (KeyError, Unanalysable) as e:
-        rep.bad("R14.2", "polygon:unanalysable", str(e))
-        return
-    rets = [p for p in paths if p.kind == "ret"]
-    enumerate_sources(rep, "polygon", fn, rets)
-    seen = {}
-    problems = {}
-    spec = {
-        "TooFewPointsInRing": (r"check_too_few_points\(", 1),
-        "SelfIntersection": (r"linestring_has_self_intersection\(", 1),
-        "NonFiniteCoord": (r"check_coord_is_not_finite\(", 1),
-        "InteriorRingNotContainedInExteriorRing": (r"is_contains\(", 0),
-        "IntersectingRingsOnALine": (r"get\(.*CoordPos::OnBoundary\(\), CoordPos::(Inside|OnBoundary)\(\)\).*Dimensions::OneDimensional", 1),
-        "IntersectingRingsOnAnArea": (r"get\(.*CoordPos::Inside\(\), CoordPos::Inside\(\)\).*Dimensions::TwoDimensional", 1),
-    }
-    for p in rets:
-        hs = handler_calls(p)
-        atoms = [(show(t), v) for t, v in p.pc]
-        for h in hs:
-            err = h[2][1][1][0] if h[2][1][0] == "tuple" else h[2][1]
-            if err[0] != "adt":
-                problems.setdefault("not-an-error-value", show(err)[:80])
-                continue
-            var = err[2]
-            es = show(err)
-            seen[var] = seen.get(var, 0) + 1
-            if var not in spec:
-                problems.setdefault("unknown-variant:%s" % var, es[:100])
-                continue
-            rx, val = spec[var]
-            guards = [(s, v) for s, v in atoms if re.search(rx, s)]
-            # the guard must hold with the right value on an atom that concerns the same ring item(s) as the error
-            uids = set(nxt_uids(es))
-            ok = False
-            for s, v in guards:
-                eqv = v
-                if var in ("IntersectingRingsOnALine", "IntersectingRingsOnAnArea"):
-                    pass
-                if eqv != val:
-                    continue
-                if uids and not uids <= set(nxt_uids(s)):
-                    continue
-                ok = True
-            if not ok:
-                problems.setdefault("guard:%s" % var, "%s is reported on a path where its check %s does not hold (=%s) for the ring(s) it names: %s" % (var, rx[:40], val, es[:140]))
-            # role / item pairing and constants
-            if var in ("TooFewPointsInRing", "SelfIntersection", "NonFiniteCoord"):
-                # role is Exterior iff ring_idx == 0 else Interior(ring_idx - 1), ring_idx from the same enumerate item as the ring
-                role = err[3][0]
-                rs = show(role)
-                idx_eq0 = [v for s, v in atoms if re.search(r"\.0\.0 == 0\)$", s) and (not uids or set(nxt_uids(s)) & uids or True)]
-                if role[0] == "adt" and role[2] == "Exterior":
-                    if not any(v == 1 for v in idx_eq0):
-                        problems.setdefault("role-exterior:%s" % var, "RingRole::Exterior is named although the ring index was not compared equal to 0")
-                elif role[0] == "adt" and role[2] == "Interior":
-                    if not re.search(r"\.0\.0 Sub 1\)", rs) or not any(v == 0 for v in idx_eq0):
-                        problems.setdefault("role-interior:%s" % var, "interior ring role is %s, expected Interior(ring_idx - 1) of the ring being checked" % rs[:100])
-            if var == "InteriorRingNotContainedInExteriorRing":
-                role = show(err[3][0])
-                if not re.match(r"RingRole::Interior\(\(.*#\d+ as Some\)\.0\.0\)$", role):
-                    problems.setdefault("role:%s" % var, "names %s, expected Interior(index of the hole being tested)" % role[:100])
-            if var in ("IntersectingRingsOnALine", "IntersectingRingsOnAnArea"):
-                r1, r2 = show(err[3][0]), show(err[3][1])
-                if "Exterior" in r1:
-                    if not re.search(r"CoordPos::OnBoundary\(\), CoordPos::Inside\(\)", "".join(s for s, v in guards)):
-                        problems.setdefault("const:shell-hole-line", "shell/hole line contact is not tested on cell (B,I)")
-                    if not re.match(r"RingRole::Interior\(\(.*as Some\)\.0\.0\)$", r2):
-                        problems.setdefault("role:shell-hole", "second ring named %s" % r2[:80])
-                else:
-                    m1 = re.match(r"RingRole::Interior\(\((.*)#(\d+) as Some\)\.0\.0\)$", r1)
-                    m2 = re.match(r"RingRole::Interior\(\((.*)#(\d+) as Some\)\.0\.0\)$", r2)
-                    if not m1 or not m2 or m1.group(2) == m2.group(2):
-                        problems.setdefault("role:hole-hole:%s" % var, "the two rings named are %s and %s: each must be the enumerate index of the ring that was tested" % (r1[-60:], r2[-60:]))
-                    else:
-                        # the second index must come from enumerate() applied directly to the interiors (then skipped), so that it is the position in interiors()
-                        if not re.search(r"skip\(enumerate\(slice::<impl \[T\]>::iter\(", r2) and not re.search(r"^RingRole::Interior\(\(<Enumerate", r2):
-                            problems.setdefault("index-source:%s" % var, "the second ring's index does not come from enumerate() over all interiors (it is %s): after skip() it is no longer the ring's position" % r2[:120])
-    for k, msg in sorted(problems.items()):
-        rep.bad("R14.2", "polygon:" + k, msg, where=fn.loc())
-    for var in spec:
-        if var not in seen:
-            rep.bad("R14.2", "polygon:never-reported:%s" % var, "no path reports %s" % var, where=fn.loc())
-        elif not any(k.endswith(var) for k in problems):
-            rep.ok("R14.2", "polygon:%s[%d paths]" % (var, seen[var]), sample={"variant": var, "guard": spec[var][0][:50]})
-    # R14.4: every pair reaches relate: on paths where the inner loop yields an item, relate on that pair is called with no other guard in between
-    pref = set()
-    for p in rets:
-        cs = calls_of(p)
-        for i, c in enumerate(cs):
-            if c[1].endswith("Iterator>::next") and "skip(" in show(c[2][0]):
-                d = [v for t, v in p.pc if t[0] == "discr" and len(t[1]) > 3 and t[1][3] == c[3]]
-                if d and d[0] == 1:
-                    later = [x[1].rsplit("::", 1)[-1] for x in cs[i + 1:i + 6]]
-                    if "relate" not in later:
-                        pref.add("inner pair formed but relate not called next (calls: %s)" % later[:4])
-    if pref:
-        rep.bad("R14.4", "polygon:pair-prefilter", sorted(pref)[0], where=fn.loc())
-    else:
-        rep.ok("R14.4", "polygon:every-pair-related")
-    rep.info["polygon_validation_paths"] = len(rets)
+def _handler_events(p):
+    """(error adt term) of every handler invocation on the path, in order"""
+    out = []
+    for c in calls_of(p):
+        if re.search(r"FnMut<Args>>::call_mut$|ops::function::FnMut::call_mut$|Fn::call$|FnOnce::call_once$", c[1]) and len(c[2]) >= 2:
+            err = c[2][1]
+            if err[0] == "tuple" and err[1]:
+                err = err[1][0]
+            if err[0] == "adt":
+                out.append(err)
+    return out
+
+
+def _cell_test(b):
+    """parse `get(relate(X, Y), CoordPos::A(), CoordPos::B()) == Dimensions::D` in either operand order -> (X, Y, A, B, D) or None"""
+    m = re.search(r"get\(relate\((.*)\), CoordPos::(\w+)\(\), CoordPos::(\w+)\(\)\)", b)
+    d = re.search(r"Dimensions::(\w+)\(\)", b)
+    if not m or not d or not (b.startswith("eq(") or b.startswith("(")):
+        return None
+    return m.group(1), CELL.get(m.group(2)), CELL.get(m.group(3)), d.group(1)
 
 
 def multipolygon_table(rep, F):
+    """R14.2 / R14.4 for MultiPolygon on a multipolygon of three members (exact unrolling of whatever loop form is used; member indices are
+    therefore constants): every ElementsOverlaps(i, j) / ElementsTouchOnALine(i, j) is reported under its own matrix test on relate(member i,
+    member j); on complete runs every pair of members has both tests decided and an error is reported exactly when its test holds; every member is
+    validated as a polygon under its own index; no other decision is taken (no pre-filter)."""
+    from ..symex import bare
     try:
         fn = F.impl_method(VAL, r"multi_polygon::MultiPolygon<F>$", None, "visit_validation", crates=("geo",))
-        paths = opaque(F, loop_bound=1, max_paths=100000, budget_s=60).run(fn)
+        K = 3
+        MP = GT + "multi_polygon::MultiPolygon"
+        elems = tuple(("index", ("field", ("deref", ("arg", 1)), "0"), ("const", i)) for i in range(K))
+        mp = ("&", ("adt", MP, "MultiPolygon", (("call", "vec!", (("array", elems),)),)))
+        ex = Symex(F, inline_crates=("geo", "geo_types"), no_inline=API, loop_bound=K * K + 6, max_paths=100000, budget_s=60, concrete_iters=True)
+        paths = ex.run(fn, args=[mp, ("arg", 2)])
     except (KeyError, Unanalysable) as e:
         rep.bad("R14.2", "multipolygon:unanalysable", str(e))
         return
-    rets = [p for p in paths if p.kind == "ret"]
-    enumerate_sources(rep, "multipolygon", fn, rets)
-    spec = {
-        "ElementsOverlaps": (r"get\(.*CoordPos::Inside\(\), CoordPos::Inside\(\)\).*Dimensions::TwoDimensional", 1),
-        "ElementsTouchOnALine": (r"get\(.*CoordPos::OnBoundary\(\), CoordPos::OnBoundary\(\)\).*Dimensions::OneDimensional", 1),
-    }
+    if any(p.kind != "ret" for p in paths):
+        rep.bad("R14.2", "multipolygon:paths", "a path does not return (%s)" % sorted({p.kind for p in paths}), where=fn.loc())
+        return
+    WANT = {"ElementsOverlaps": ("I", "I", "TwoDimensional"), "ElementsTouchOnALine": ("B", "B", "OneDimensional")}
     seen = {}
-    problems = {}
-    for p in rets:
-        atoms = [(show(t), v) for t, v in p.pc]
-        for h in handler_calls(p):
-            err = h[2][1][1][0] if h[2][1][0] == "tuple" else h[2][1]
-            if err[0] != "adt" or err[2] not in spec:
-                continue
-            var = err[2]
-            seen[var] = seen.get(var, 0) + 1
-            rx, val = spec[var]
-            if not any(re.search(rx, s) and v == val for s, v in atoms):
-                problems.setdefault("guard:" + var, "%s is reported without its matrix test holding" % var)
-            i1, i2 = show(err[3][0]), show(err[3][1])
-            u1, u2 = nxt_uids(i1), nxt_uids(i2)
-            cs_all = calls_of(p)
-            hpos = cs_all.index(h)
-            rel = [c for c in cs_all[:hpos] if c[1].endswith("::relate")]
-            rs = show(("call", rel[-1][1], rel[-1][2])) if rel else ""
-            if not u1 or not u2 or u1[-1] == u2[-1]:
-                problems.setdefault("index:" + var, "member indices %s / %s are not the indices of the two members tested" % (i1[-50:], i2[-50:]))
-            elif not ("#%s as Some).0.1" % u1[-1] in rs and "#%s as Some).0.1" % u2[-1] in rs):
-                problems.setdefault("pairing:" + var, "the members related are not the ones whose indices are reported")
-            elif not re.search(r"skip\(enumerate\(slice::<impl \[T\]>::iter\(", i2):
-                problems.setdefault("index-source:" + var, "the second index does not come from enumerate() over all members before skip(): %s" % i2[:100])
-    for k, msg in sorted(problems.items()):
-        rep.bad("R14.2", "multipolygon:" + k, msg, where=fn.loc())
-    for var in spec:
-        if var not in seen:
-            rep.bad("R14.2", "multipolygon:never-reported:%s" % var, "no path reports %s" % var, where=fn.loc())
-        elif not any(k.endswith(var) for k in problems):
-            rep.ok("R14.2", "multipolygon:%s[%d paths]" % (var, seen[var]))
-    # nested polygon validation: called for every member, Result propagated (see propagation), wrapped with the member's index
-    # no pre-filter: once the inner loop yields a member, relate is the next geo call
-    pref = set()
-    for p in rets:
-        cs = calls_of(p)
-        for i, c in enumerate(cs):
-            if c[1].endswith("Iterator>::next") and "skip(" in show(c[2][0]):
-                d = [v for t, v in p.pc if t[0] == "discr" and len(t[1]) > 3 and t[1][3] == c[3]]
-                if d and d[0] == 1:
-                    later = [x[1].rsplit("::", 1)[-1] for x in cs[i + 1:i + 3]]
-                    between = []
-                    if "relate" not in later:
-                        pref.add("a pair of members is formed but relate is not the next step (calls: %s)" % later)
-                    # atoms decided between the next() and the relate must not exist (they would be a pre-filter)
-        # extra guards: any comparison atom that is not a matrix cell test
+    for p in paths:
+        tests = {}
         for t, v in p.pc:
-            s = show(t)
-            if t[0] == "cmp" and "get(" not in s and "discr(" not in s:
-                pref.add("the member loop decides on %s, which is not a matrix test: pairs can be skipped before relate" % s[:100])
-    if pref:
-        rep.bad("R14.4", "multipolygon:pair-prefilter", sorted(pref)[0], where=fn.loc())
+            b = bare(t)
+            if re.match(r"^discr\((visit_validation|call_mut|call|call_once)\(", b):
+                continue
+            ct = _cell_test(b)
+            m = re.match(r"^a1\.0\[(\d)\], a1\.0\[(\d)\]$", ct[0]) if ct else None
+            if not ct or not m or None in ct[1:3]:
+                rep.bad("R14.4", "multipolygon:pair-prefilter", "the member loop decides on `%s`, which is neither a matrix test of relate(member, member) nor the outcome of a nested check: "
+                        "pairs can be skipped before they are related" % b[:140], where=fn.loc())
+                return
+            i, j = int(m.group(1)), int(m.group(2))
+            cell = (ct[1], ct[2]) if i < j else (ct[2], ct[1])
+            tests[(min(i, j), max(i, j), cell[0], cell[1], ct[3])] = v
+        events = []
+        for err in _handler_events(p):
+            var = err[2]
+            if var not in WANT:
+                rep.bad("R14.2", "multipolygon:unknown-variant", "handler is given %s" % bare(err)[:100], where=fn.loc())
+                return
+            idx = [bare(x) for x in err[3]]
+            mm = [re.match(r"^GeometryIndex::GeometryIndex\((\d+)\)$", x) for x in idx]
+            if not all(mm):
+                rep.bad("R14.2", "multipolygon:index:" + var, "the members named are %s: not positions in the multipolygon" % idx, where=fn.loc())
+                return
+            i, j = int(mm[0].group(1)), int(mm[1].group(1))
+            seen[var] = seen.get(var, 0) + 1
+            a, b_, d = WANT[var]
+            if i == j or max(i, j) >= K or tests.get((min(i, j), max(i, j), a, b_, d)) != 1:
+                rep.bad("R14.2", "multipolygon:guard:" + var, "%s(%d, %d) is reported on a path where the (%s,%s) cell of relate(member %d, member %d) was not found %s: the error names members that "
+                        "do not have the defect [%s]" % (var, i, j, a, b_, i, j, d, show_pc(p.pc)[:160]), where=fn.loc())
+                return
+            events.append((var, min(i, j), max(i, j)))
+        if bare(p.ret).startswith("Result::Ok"):
+            nested = [bare(c[2][0]) for c in calls_of(p) if c[1].endswith("::visit_validation") and c[2]]
+            if sorted(nested) != ["a1.0[%d]" % k for k in range(K)]:
+                rep.bad("R14.2", "multipolygon:members-validated", "on a complete run the members validated as polygons are %s, expected each of the %d members once" % (nested, K), where=fn.loc())
+                return
+            for i in range(K):
+                for j in range(i + 1, K):
+                    for var, (a, b_, d) in WANT.items():
+                        v = tests.get((i, j, a, b_, d))
+                        if v is None:
+                            rep.bad("R14.4", "multipolygon:pair-not-tested", "a complete run never tests the (%s,%s) cell of members %d and %d" % (a, b_, i, j), where=fn.loc())
+                            return
+                        if (v == 1) != ((var, i, j) in events):
+                            rep.bad("R14.2", "multipolygon:report-iff:" + var, "members %d and %d: test is %s but %s is %sreported" % (i, j, bool(v), var, "" if (var, i, j) in events else "not "), where=fn.loc())
+                            return
+    for var in WANT:
+        if not seen.get(var):
+            rep.bad("R14.2", "multipolygon:never-reported:%s" % var, "no path reports %s" % var, where=fn.loc())
+        else:
+            rep.ok("R14.2", "multipolygon:%s[%d reports on %d paths, 3 members]" % (var, seen[var], len(paths)))
+    rep.ok("R14.4", "multipolygon:every-pair-related")
+    # the wrapping closure names the member it was created for
+    wrap_ok = False
+    for g in F.closures_of(fn):
+        for q in opaque(F).run(g):
+            if q.kind == "ret":
+                evs = _handler_events(q)
+                if evs and evs[0][2] == "InvalidPolygon" and re.match(r"^GeometryIndex::GeometryIndex\(\*?a1\.1\)$|^GeometryIndex::GeometryIndex\(\*?\*?a1\.1\)$", bare(evs[0][3][0])):
+                    wrap_ok = True
+    caps_ok = True
+    for p in paths:
+        for c in calls_of(p):
+            if c[1].endswith("::visit_validation") and len(c[2]) == 2:
+                m1 = re.match(r"^a1\.0\[(\d)\]$", bare(c[2][0]))
+                m2 = re.search(r"closure\[.*, (\d+)\]", bare(c[2][1]))
+                if not m1 or not m2 or m1.group(1) != m2.group(1):
+                    caps_ok = False
+    if wrap_ok and caps_ok:
+        rep.ok("R14.2", "multipolygon:InvalidPolygon-index")
     else:
-        rep.ok("R14.4", "multipolygon:every-pair-related")
+        rep.bad("R14.2", "multipolygon:InvalidPolygon-index", "a member's polygon errors are not wrapped with that member's own index", where=fn.loc())
+
+
+def _ring_of(s):
+    m = re.findall(r"a1\.(ext|h\d)", s)
+    return m
+
+
+def polygon_table(rep, F):
+    rep.rule("R14.2", "each error value is reported under the check that defines it, on the ring(s) / member(s) it names (concrete ring structure: roles and indices are constants); on complete runs an error is reported exactly when its check fires")
+    rep.rule("R14.3", "ring tests use the stated constants: hole not is_contains in the shell-polygon; (B,I)=1 shell/hole and (B,B)=1 hole/hole are line contacts; (I,I)=2 is an area overlap")
+    rep.rule("R14.4", "every non-empty ring, every hole and every pair of holes / members is tested; no decision other than the checks themselves (no pre-filter)")
+    _polygon_table(rep, F)
+
+
+def _polygon_table(rep, F):
+    """R14.2 - R14.4 for Polygon on polygons with concrete ring structure (exact unrolling): scenario A one hole with all per-ring checks
+    symbolic, scenario B two holes with the per-ring checks assumed false (only the ring-vs-ring tests branch).  Ring roles are therefore
+    constants.  Each error is reported under its own check on the ring(s) it names; on complete runs every non-empty ring / hole / pair of holes has
+    its checks decided and an error is reported exactly when its check fires; no other decision is taken."""
+    from ..symex import bare, _ret
+    try:
+        fn = F.impl_method(VAL, r"polygon::Polygon<F>$", None, "visit_validation", crates=("geo",))
+    except KeyError as e:
+        rep.bad("R14.2", "polygon:anchor", str(e))
+        return
+    PG, LS = GT + "polygon::Polygon", GT + "line_string::LineString"
+
+    def ring(name):
+        return ("adt", LS, "LineString", (("call", "vec!", (("array", (("field", ("deref", ("arg", 1)), name),)),)),))
+    U = "geo::algorithm::validation::utils::"
+    seen = {}
+    total = 0
+    for K, fixed, fixed_shell in ((1, False, False), (2, True, False), (3, True, True)):
+        holes = tuple(ring("h%d" % i) for i in range(K))
+        pg = ("&", ("adt", PG, "Polygon", (ring("ext"), ("call", "vec!", (("array", holes),)))))
+        models = {}
+        if fixed:
+            for k in ("check_too_few_points", "linestring_has_self_intersection", "check_coord_is_not_finite"):
+                models[U + k] = lambda ex, st, call, args: _ret(st, ("const", False))
+        if fixed_shell:
+            # three holes: only the hole-vs-hole tests branch (shell-vs-hole outcomes are assumed harmless; they are covered with two holes)
+            IMX = "geo::algorithm::relate::geomgraph::intersection_matrix::IntersectionMatrix::"
+            models[IMX + "is_contains"] = lambda ex, st, call, args: _ret(st, ("const", True))
+
+            def get_model(ex, st, call, args):
+                a, b = bare(ex.canon(st, args[1])), bare(ex.canon(st, args[2]))
+                if (a, b) == ("CoordPos::OnBoundary()", "CoordPos::Inside()"):
+                    return _ret(st, ("adt", "geo::algorithm::dimensions::Dimensions", "Empty", ()))
+                return NotImplemented
+            models[IMX + "get"] = get_model
+        ex = Symex(F, models=models, inline_crates=("geo", "geo_types"), no_inline=API, loop_bound=12, max_paths=200000, budget_s=90, concrete_iters=True)
+        try:
+            paths = ex.run(fn, args=[pg, ("arg", 2)])
+        except Unanalysable as e:
+            rep.bad("R14.2", "polygon:unanalysable", str(e), where=fn.loc())
+            return
+        if any(p.kind != "ret" for p in paths):
+            rep.bad("R14.2", "polygon:paths", "a path does not return (%s)" % sorted({p.kind for p in paths}), where=fn.loc())
+            return
+        total += len(paths)
+        role_ring = {"RingRole::Exterior()": "ext"}
+        for i in range(K):
+            role_ring["RingRole::Interior(%d)" % i] = "h%d" % i
+        for p in paths:
+            T = {}      # decided checks: key -> value
+            for t, v in p.pc:
+                b = bare(t)
+                if re.match(r"^discr\((call_mut|call|call_once)\(", b):
+                    continue
+                rings = _ring_of(b)
+                if b.startswith("is_empty(Polygon::Polygon("):
+                    T[("poly-empty",)] = v
+                elif b.startswith("is_empty(") and len(set(rings)) == 1:
+                    T[("empty", rings[0])] = v
+                elif b.startswith("check_too_few_points(") and len(set(rings)) == 1 and b.endswith(", True)"):
+                    T[("few", rings[0])] = v
+                elif b.startswith("linestring_has_self_intersection(") and len(set(rings)) == 1:
+                    T[("self", rings[0])] = v
+                elif b.startswith("check_coord_is_not_finite(") and len(set(rings)) == 1:
+                    T[("finite", rings[0])] = v
+                elif re.match(r"^is_contains\(relate\(new\(.*a1\.ext.*\), LineString::LineString\(vec!\(\[a1\.(h\d)\]\)\)\)\)$", b):
+                    T[("contains", rings[-1])] = v
+                elif _cell_test(b) and len(rings) == 2:
+                    ct = _cell_test(b)
+                    a_, b_ = rings
+                    cell = (ct[1], ct[2])
+                    if a_ != "ext" and (b_ == "ext" or a_ > b_):
+                        a_, b_, cell = b_, a_, (ct[2], ct[1])
+                    T[("cell", a_, b_, cell[0], cell[1], ct[3])] = v
+                else:
+                    rep.bad("R14.4", "polygon:foreign-decision", "validation decides on `%s`, which is not one of the ring checks, a matrix test of two rings, or a handler outcome: rings or pairs "
+                            "can be skipped before they are checked" % b[:140], where=fn.loc())
+                    return
+            events = []
+            for err in _handler_events(p):
+                var = err[2]
+                roles = [bare(x) for x in err[3]]
+                rr = [role_ring.get(x) for x in roles if x.startswith("RingRole")]
+                seen[var] = seen.get(var, 0) + 1
+                ok_ = False
+                if None in rr:
+                    ok_ = False
+                elif var == "TooFewPointsInRing":
+                    ok_ = T.get(("few", rr[0])) == 1
+                elif var == "SelfIntersection":
+                    ok_ = T.get(("self", rr[0])) == 1
+                elif var == "NonFiniteCoord":
+                    ok_ = T.get(("finite", rr[0])) == 1 and roles[1] == "CoordIndex::CoordIndex(0)"
+                elif var == "InteriorRingNotContainedInExteriorRing":
+                    ok_ = rr[0] != "ext" and T.get(("contains", rr[0])) == 0
+                elif var == "IntersectingRingsOnALine" and len(rr) == 2:
+                    a_, b_ = sorted(rr, key=lambda x: (x != "ext", x))
+                    ok_ = a_ != b_ and (T.get(("cell", a_, b_, "B", "I", "OneDimensional")) == 1 if a_ == "ext" else T.get(("cell", a_, b_, "B", "B", "OneDimensional")) == 1)
+                elif var == "IntersectingRingsOnAnArea" and len(rr) == 2:
+                    a_, b_ = sorted(rr)
+                    ok_ = a_ != b_ and "ext" not in (a_, b_) and T.get(("cell", a_, b_, "I", "I", "TwoDimensional")) == 1
+                else:
+                    rep.bad("R14.2", "polygon:unknown-variant:%s" % var, bare(err)[:100], where=fn.loc())
+                    return
+                if not ok_:
+                    rep.bad("R14.2", "polygon:guard:%s" % var, "%s(%s) is reported on a path where the check that defines it does not hold for the ring(s) it names [%s]" % (
+                        var, ", ".join(roles), show_pc(p.pc)[:200]), where=fn.loc())
+                    return
+                events.append((var, tuple(rr)))
+            if not bare(p.ret).startswith("Result::Ok") or T.get(("poly-empty",)) == 1:
+                continue
+            # complete run: every non-empty ring has its checks decided and reported iff they fire
+            allr = ["ext"] + ["h%d" % i for i in range(K)]
+            for r_ in allr:
+                if T.get(("empty", r_)) != 0:
+                    continue
+                if not fixed:
+                    for key, var in (("few", "TooFewPointsInRing"), ("self", "SelfIntersection"), ("finite", "NonFiniteCoord")):
+                        v = T.get((key, r_))
+                        if v is None:
+                            rep.bad("R14.4", "polygon:ring-check-skipped", "a complete run does not perform the `%s` check on the ring %s" % (key, r_), where=fn.loc())
+                            return
+                        if (v == 1) != any(e[0] == var and e[1][0] == r_ for e in events):
+                            rep.bad("R14.2", "polygon:report-iff:%s" % var, "ring %s: check is %s but the error is %sreported" % (r_, bool(v), "" if v == 0 else "not "), where=fn.loc())
+                            return
+            for i in range(K):
+                h = "h%d" % i
+                if T.get(("empty", h)) != 0:
+                    continue
+                v = T.get(("contains", h))
+                w = T.get(("cell", "ext", h, "B", "I", "OneDimensional"))
+                if fixed_shell:
+                    v, w = 1, 0
+                if v is None or w is None:
+                    rep.bad("R14.4", "polygon:hole-check-skipped", "a complete run does not test hole %d against the shell (contains: %s, line contact: %s)" % (i, v, w), where=fn.loc())
+                    return
+                if (v == 0) != any(e == ("InteriorRingNotContainedInExteriorRing", (h,)) for e in events) or \
+                        (w == 1) != any(e[0] == "IntersectingRingsOnALine" and set(e[1]) == {"ext", h} for e in events):
+                    rep.bad("R14.2", "polygon:report-iff:shell-hole", "hole %d: tests (contains=%s, line=%s) and the reported errors disagree" % (i, v, w), where=fn.loc())
+                    return
+                for j in range(i + 1, K):
+                    g = "h%d" % j
+                    a_ = T.get(("cell", h, g, "I", "I", "TwoDimensional"))
+                    l_ = T.get(("cell", h, g, "B", "B", "OneDimensional"))
+                    if a_ is None or l_ is None:
+                        rep.bad("R14.4", "polygon:pair-not-tested", "a complete run does not test holes %d and %d against each other" % (i, j), where=fn.loc())
+                        return
+                    if (a_ == 1) != any(e[0] == "IntersectingRingsOnAnArea" and set(e[1]) == {h, g} for e in events) or \
+                            (l_ == 1) != any(e[0] == "IntersectingRingsOnALine" and set(e[1]) == {h, g} for e in events):
+                        rep.bad("R14.2", "polygon:report-iff:hole-hole", "holes %d and %d: tests (area=%s, line=%s) and the reported errors disagree" % (i, j, a_, l_), where=fn.loc())
+                        return
+    for var in ("TooFewPointsInRing", "SelfIntersection", "NonFiniteCoord", "InteriorRingNotContainedInExteriorRing", "IntersectingRingsOnALine", "IntersectingRingsOnAnArea"):
+        if not seen.get(var):
+            rep.bad("R14.2", "polygon:never-reported:%s" % var, "no path reports %s" % var, where=fn.loc())
+        else:
+            rep.ok("R14.2", "polygon:%s[%d reports]" % (var, seen[var]))
+    rep.ok("R14.4", "polygon:every-ring-and-pair-checked")
+    rep.ok("R14.3", "polygon:constants(contains / (B,I)=1 / (B,B)=1 / (I,I)=2)")
+    rep.info["polygon_validation_paths"] = total
 
 
 def propagation(rep, F):
